@@ -48,20 +48,24 @@ func (r *renderer) ref(tr *TypeRef) string {
 	if tr.Paren {
 		base = "(" + base + ")"
 	}
+	wrap := tr.Wrap
+	if tr.WrapKey != nil && wrap == "map[string]" {
+		wrap = "map[" + r.tname(tr.WrapKey) + "]"
+	}
 	if tr.Ptr {
 		if tr.ParenAll {
 			return "(*" + base + ")"
 		}
-		return tr.Wrap + "*" + base
+		return wrap + "*" + base
 	}
-	return tr.Wrap + base
+	return wrap + base
 }
 
 // refNoPtr renders the mention ignoring Ptr (for literals, new, ...).
 func (r *renderer) refNoPtr(tr *TypeRef) string {
 	c := *tr
 	c.Ptr = false
-	c.Wrap = ""
+	c.Wrap, c.WrapKey = "", nil
 	return r.ref(&c)
 }
 
@@ -110,7 +114,13 @@ func (r *renderer) docLines(t *TypeDecl) []string {
 		if sp == "" {
 			sp = strings.Join(t.Constructors, ", ")
 		}
-		d = append(d, "// @constructor "+sp)
+		if t.CtorSplit > 0 && t.CtorSplit < len(t.Constructors) {
+			// several @constructor lines on one declaration: the lists add up
+			d = append(d, "// @constructor "+strings.Join(t.Constructors[:t.CtorSplit], ", "))
+			d = append(d, "// @constructor "+strings.Join(t.Constructors[t.CtorSplit:], ","))
+		} else {
+			d = append(d, "// @constructor "+sp)
+		}
 	}
 	if t.TestOnly {
 		d = append(d, "// @testonly")
